@@ -194,7 +194,7 @@ theorem newDT_strDict (o : TraceOpts) (path : String) (nl : Bool) (md : Metadata
 /-- `UnionBuilder::new`: the fresh Union builder over fresh children has the full head room -/
 theorem mkUnion_full (path : String) (bl : BL) (hr : FullRoomL bl) :
     FullRoom (.union path bl [] [] (List.replicate bl.length 0)) :=
-  ⟨by simpa [used] using hr.1, by simpa [keysRoom] using hr.2⟩
+  ⟨by simpa [used, curUsed_zeros] using hr.1, by simpa [keysRoom] using hr.2⟩
 
 mutual
 theorem newDT_traced (o : TraceOpts) : ∀ (t : Ty) (dt : DataType) (nb : Bool) (md : Metadata),
